@@ -367,6 +367,8 @@ pub struct Runner {
     pub utf8_full: String,
     pub notes: Vec<String>,
     pub groupings: std::collections::BTreeSet<String>,
+    /// the current FST came out of the shipped builder (set by `build`)
+    pub cur_built: bool,
 }
 
 fn lo_ok(lo: &(u8, Vec<u8>), k: &[u8]) -> bool {
@@ -408,6 +410,7 @@ impl Runner {
             utf8_full: String::new(),
             notes: vec![],
             groupings: Default::default(),
+            cur_built: false,
         }
     }
 
@@ -493,6 +496,7 @@ impl Runner {
                 let bytes = unhex(t[1]);
                 // optional expectation: `expect=<kv>` / `expect=err`
                 self.expect = None;
+                self.cur_built = false;
                 let o = self.open(bytes);
                 format!("load {}", o)
             }
@@ -573,6 +577,7 @@ impl Runner {
         }
         self.expect = None;
         self.cur = None;
+        self.cur_built = false;
         if stop && stopped {
             return format!("build {} | fin=skipped", res_s);
         }
@@ -581,6 +586,7 @@ impl Runner {
             Some(bytes) => {
                 let sb = show_bytes(&bytes);
                 let o = self.open(bytes);
+                self.cur_built = true;
                 if let Some(f) = &self.cur {
                     let got = f.stream().into_byte_vec();
                     let keys: Vec<Vec<u8>> = {
@@ -601,7 +607,7 @@ impl Runner {
                     self.check(is_empty == accepted.is_empty(), || "C01 is_empty()".into());
                     self.expect = if ambiguous { None } else { Some(accepted) };
                 } else {
-                    self.fail(format!("C01 built bytes do not open: {}", o));
+                    self.fail(format!("C01 C08 built bytes do not open (so they cannot pass verify()): {}", o));
                 }
                 format!("build {} | fin=ok | {} | open {}", res_s, sb, o)
             }
@@ -613,7 +619,12 @@ impl Runner {
             Some(f) => f,
             None => return "nofst".into(),
         };
-        match f.verify() {
+        // C08: `verify` lines follow a build by the shipped builder — it must verify
+        let r = f.verify();
+        let built_v3 = self.cur_built;
+        let shown = format!("{:?}", r.as_ref().err());
+        self.check(r.is_ok() || !built_v3, || format!("C08 a built FST does not pass verify(): {}", shown));
+        match r {
             Ok(()) => "verify ok".into(),
             Err(fst::Error::Fst(raw::Error::ChecksumMissing)) => {
                 "verify missing".into()
